@@ -162,7 +162,7 @@ Theorem key_deterministic : forall fx H i q ho ho' vo vo',
   cache_key fx H ho vo i q = cache_key fx H ho' vo' i q.
 Proof.
   intros fx H i q ho ho' vo vo' [P1 P2] [P1' P2'] [F|F].
-  2: { unfold cache_key, key_fields, ep_hash, ep_fields, hash_order. rewrite F. reflexivity. }
+  2: { unfold cache_key, key_fields, key_fields0, ep_hash, ep_fields, hash_order. rewrite F. reflexivity. }
   unfold order_free in F. apply andb_true_iff in F as [F1 F2].
   apply Nat.leb_le in F1, F2.
   assert (ho = ho') as ->.
@@ -586,7 +586,7 @@ Lemma allowed_has_key fx H w i q ho vo r :
   enabled i = true -> fst (exec_fresh w i q) = OAllow r -> exists k, cache_key fx H ho vo i q = Some k.
 Proof.
   intros En F. unfold cache_key. rewrite En.
-  unfold key_fields. unfold exec_fresh, mk_sent in F.
+  unfold key_fields, key_fields0. unfold exec_fresh, mk_sent in F.
   destruct (i_kind i); try (eexists; reflexivity);
     destruct (rendered i q) as [[vals payload]|]; try (eexists; reflexivity); simpl in F; discriminate.
 Qed.
@@ -694,7 +694,8 @@ Proof.
     (mk_step w_ctx_shift (q_sub "alice" [("X-V1", "1v2"); ("X-V2", "2")] []) ["X-Val"] ["v1"; "v2"]).
   splits.
   - intro H. unfold g_F4. cbn [exists_pair existsb]. apply orb_true_iff. left. apply orb_true_iff. left.
-    apply orb_true_iff. left. unfold p_F4, both. apply andb_true_iff. split; [reflexivity|].
+    apply orb_true_iff. left. unfold p_F4. apply orb_true_iff. left.
+    unfold p_F4k, both. apply andb_true_iff. split; [reflexivity|].
     apply orb_true_iff. left. apply collide_intro; [reflexivity|].
     unfold opt_fields. simpl. intro E. injection E. discriminate.
   - split; simpl; apply Permutation_refl.
